@@ -1516,82 +1516,216 @@ func r04DecisionTable(c *core.Ctx) {
 			})
 		}
 		if loop != nil {
-			f := consumer
-			info := f.Pkg.TypesInfo
-			var quadrantsParam types.Object
-			{
-				sig := f.Obj.Type().(*types.Signature)
-				for i := 0; i < sig.Params().Len(); i++ {
-					if m, ok := sig.Params().At(i).Type().Underlying().(*types.Map); ok && core.TypeShort(m.Elem()) == "pointindex.Quadrant" {
-						quadrantsParam = sig.Params().At(i)
-					}
-				}
+			okLoop, why = consumerLoopTable(consumer.SSA)
+			if okLoop && !handoff {
+				okLoop, why = false, "the consuming helper is not handed the function's own quadrant map and the list just built, or its result is not returned"
 			}
-			v := core.ObjOf(info, loop.Value)
-			fieldOf := func(e ast.Expr, name string) bool {
-				sel, ok := ast.Unparen(e).(*ast.SelectorExpr)
-				return ok && sel.Sel.Name == name && core.ObjOf(info, sel.X) == v && v != nil
-			}
-			var flag, okVar, qVar, foundVar types.Object
-			skipMutex, lookup, skipAbsent, report, setFlag := false, false, false, false, false
-			for _, st := range loop.Body.List {
-				switch s := st.(type) {
-				case *ast.IfStmt:
-					cj := conjuncts(s.Cond)
-					isContinue := len(s.Body.List) == 1 && func() bool { b, ok := s.Body.List[0].(*ast.BranchStmt); return ok && b.Tok == token.CONTINUE }()
-					switch {
-					case isContinue && len(cj) == 2 && fieldOf(cj[0], "mutex") && core.ObjOf(info, cj[1]) != nil:
-						flag = core.ObjOf(info, cj[1])
-						skipMutex = true
-					case isContinue && len(cj) == 1:
-						if u, ok := ast.Unparen(cj[0]).(*ast.UnaryExpr); ok && u.Op == token.NOT && okVar != nil && core.ObjOf(info, u.X) == okVar {
-							skipAbsent = true
-						}
-					default:
-						dj := disjuncts(s.Cond)
-						if len(dj) == 2 && fieldOf(dj[0], "certain") {
-							if call, ok := ast.Unparen(dj[1]).(*ast.CallExpr); ok && core.IsCallTo(info, call, "pointindex.lineIntersects") && len(call.Args) == 2 {
-								if sel, ok := ast.Unparen(call.Args[1]).(*ast.SelectorExpr); ok && sel.Sel.Name == "intExtent" && core.ObjOf(info, sel.X) == qVar && qVar != nil {
-									for _, bs := range s.Body.List {
-										switch b := bs.(type) {
-										case *ast.AssignStmt:
-											if app, ok := b.Rhs[0].(*ast.CallExpr); ok && core.IsBuiltinCall(info, app, "append") && len(app.Args) == 2 && fieldOf(app.Args[1], "i") && core.SameObj(info, b.Lhs[0], app.Args[0]) {
-												report = true
-												foundVar = core.ObjOf(info, b.Lhs[0])
-											}
-										case *ast.IfStmt:
-											if fieldOf(b.Cond, "mutex") && len(b.Body.List) == 1 {
-												if as, ok := b.Body.List[0].(*ast.AssignStmt); ok && core.ObjOf(info, as.Lhs[0]) == flag && flag != nil && canon(as.Rhs[0]) == "true" {
-													setFlag = true
-												}
-											}
-										}
-									}
-								}
-							}
-						}
-					}
-				case *ast.AssignStmt:
-					if len(s.Lhs) == 2 && len(s.Rhs) == 1 {
-						if ix, ok := s.Rhs[0].(*ast.IndexExpr); ok && core.ObjOf(info, ix.X) == quadrantsParam && fieldOf(ix.Index, "i") {
-							lookup = true
-							qVar, okVar = core.ObjOf(info, s.Lhs[0]), core.ObjOf(info, s.Lhs[1])
-						}
-					}
-				}
-			}
-			// the list returned is the one appended to
-			retOK := false
-			if last, ok := f.Decl.Body.List[len(f.Decl.Body.List)-1].(*ast.ReturnStmt); ok && len(last.Results) == 1 {
-				retOK = foundVar != nil && core.ObjOf(info, last.Results[0]) == foundVar
-			}
-			okLoop = skipMutex && lookup && skipAbsent && report && setFlag && retOK && handoff && !hasJump(loop.Body, token.BREAK, token.RETURN, token.GOTO).IsValid()
-			why = fmt.Sprintf("mutex-skip=%v lookup-by-quadrant=%v skip-absent=%v certain-or-intersects-appends=%v mutex-set=%v returns-list=%v handed-own-map-and-built-list=%v", skipMutex, lookup, skipAbsent, report, setFlag, retOK, handoff)
 		}
 		c.Check(R, "consumer-loop/"+f.Name, f.Decl.Pos(), okLoop, "a quadrant is reported iff it has points and (certain or lineIntersects(line, its extent)), honouring the mutex; the reported list is returned", "the loop consuming the decision table changed shape: "+why)
 	}
 	c.FloorPrefix(R, "list-shape/", 3)
 }
+
+// consumerLoopTable derives the per-entry decision of the loop that consumes the quadrantsToCheck list from the
+// boolean skeleton of its SSA: for every valuation of (entry.mutex, mutex already taken, quadrant has points,
+// entry.certain, lineIntersects) the entry's quadrant is appended iff !(mutex && taken) && hasPoints &&
+// (certain || intersects), and the mutex is taken afterwards iff it was, or the entry was appended and is a mutex
+// entry.  The form of the code (continue guards, nested ifs, flag updates) does not matter.
+func consumerLoopTable(fn *ssa.Function) (bool, string) {
+	if fn == nil {
+		return false, "no SSA"
+	}
+	// the range loop over a []quadrantToCheck: header with the index phi, element cell
+	var header *ssa.BasicBlock
+	var elemCell ssa.Value
+	for _, b := range fn.Blocks {
+		i := core.BlockIf(b)
+		if i == nil || len(b.Succs) != 2 {
+			continue
+		}
+		cmp, ok := i.Cond.(*ssa.BinOp)
+		if !ok || cmp.Op != token.LSS {
+			continue
+		}
+		for _, in := range b.Succs[0].Instrs {
+			ia, ok := in.(*ssa.IndexAddr)
+			if !ok || ia.Index != cmp.X {
+				continue
+			}
+			if core.TypeShort(sliceElem(ia.X.Type())) != "pointindex.quadrantToCheck" {
+				continue
+			}
+			header = b
+			// the element is copied into a local cell: *cell = *ia
+			for _, r := range *ia.Referrers() {
+				if ld, ok := r.(*ssa.UnOp); ok && ld.Op == token.MUL {
+					for _, rr := range *ld.Referrers() {
+						if st, ok := rr.(*ssa.Store); ok && st.Val == ssa.Value(ld) {
+							elemCell = st.Addr
+						}
+					}
+					if elemCell == nil {
+						elemCell = ia
+					}
+				}
+			}
+		}
+	}
+	if header == nil || elemCell == nil {
+		return false, "no loop over quadrantsToCheck"
+	}
+	elemField := func(v ssa.Value) string {
+		ld, ok := v.(*ssa.UnOp)
+		if !ok || ld.Op != token.MUL {
+			return ""
+		}
+		fa, ok := ld.X.(*ssa.FieldAddr)
+		if !ok || fa.X != elemCell {
+			return ""
+		}
+		return fieldNameOf(fa.X.Type(), fa.Field)
+	}
+	var flagPhi, foundPhi *ssa.Phi
+	for _, in := range header.Instrs {
+		ph, ok := in.(*ssa.Phi)
+		if !ok {
+			continue
+		}
+		switch {
+		case isBoolType(ph.Type()):
+			flagPhi = ph
+		case core.TypeShort(sliceElem(ph.Type())) == "pointindex.Q" || strings.HasSuffix(ph.Type().String(), "[]int"):
+			if _, isSl := ph.Type().Underlying().(*types.Slice); isSl {
+				foundPhi = ph
+			}
+		}
+	}
+	if flagPhi == nil || foundPhi == nil {
+		return false, "no loop-carried mutex flag or result list"
+	}
+	var lookup *ssa.Lookup
+	atom := func(fr *boolFrame, v ssa.Value) (string, bool, bool) {
+		if v == ssa.Value(flagPhi) {
+			return "X", false, true
+		}
+		switch elemField(v) {
+		case "mutex":
+			return "M", false, true
+		case "certain":
+			return "C", false, true
+		}
+		switch x := v.(type) {
+		case *ssa.Extract:
+			if lk, ok := x.Tuple.(*ssa.Lookup); ok && lk.CommaOk && x.Index == 1 && elemField(lk.Index) == "i" {
+				if m, ok := lk.X.Type().Underlying().(*types.Map); ok && core.TypeShort(m.Elem()) == "pointindex.Quadrant" {
+					if _, isParam := resolveValue(lk.X).(*ssa.Parameter); isParam {
+						lookup = lk
+						return "P", false, true
+					}
+				}
+			}
+		case *ssa.Call:
+			if core.StaticCalleeID(x) == core.ModPath+"/pointindex.lineIntersects" && len(x.Call.Args) == 2 {
+				if _, isParam := resolveValue(x.Call.Args[0]).(*ssa.Parameter); !isParam {
+					break
+				}
+				// the extent of the quadrant just looked up
+				ext := resolveValue(x.Call.Args[1])
+				if ld, ok := ext.(*ssa.UnOp); ok {
+					if fa, ok := ld.X.(*ssa.FieldAddr); ok && fieldNameOf(fa.X.Type(), fa.Field) == "intExtent" {
+						if a, ok := fa.X.(*ssa.Alloc); ok {
+							if sv := onceStoredIgnoringLoads(a); sv != nil {
+								if e0, ok := sv.(*ssa.Extract); ok && e0.Index == 0 {
+									if lk, ok := e0.Tuple.(*ssa.Lookup); ok && elemField(lk.Index) == "i" {
+										return "L", false, true
+									}
+								}
+							}
+						}
+					}
+				}
+				if f, ok := ext.(*ssa.Field); ok && fieldNameOf(f.X.Type(), f.Field) == "intExtent" {
+					if e0, ok := f.X.(*ssa.Extract); ok && e0.Index == 0 {
+						if lk, ok := e0.Tuple.(*ssa.Lookup); ok && elemField(lk.Index) == "i" {
+							return "L", false, true
+						}
+					}
+				}
+			}
+		}
+		return "", false, false
+	}
+	names := []string{"M", "X", "P", "C", "L"}
+	for m := 0; m < 1<<len(names); m++ {
+		as := map[string]bool{}
+		for i, n := range names {
+			as[n] = m&(1<<i) != 0
+		}
+		bi := &boolInterp{roleOf: func(*boolFrame, ssa.Value) string { return "" }, atom: atom, assign: as, used: map[string]bool{}}
+		fr := &boolFrame{fn: fn, roles: map[ssa.Value]string{}, env: map[ssa.Value]bool{}, prev: header}
+		out, err := bi.run(fr, header.Succs[0], map[*ssa.BasicBlock]bool{header: true}, 0)
+		if err != nil {
+			return false, "the per-entry decision is not understood: " + err.Error()
+		}
+		if out.kind != "block" {
+			return false, "an entry can end the loop early (" + out.kind + ")"
+		}
+		// effects on the back edge taken
+		pi := -1
+		for i, p := range header.Preds {
+			if p == fr.prev {
+				pi = i
+			}
+		}
+		if pi < 0 {
+			return false, "back edge not found"
+		}
+		appended := false
+		switch e := foundPhi.Edges[pi].(type) {
+		case *ssa.Phi:
+			if e != foundPhi {
+				return false, "the result list is replaced by something other than an append"
+			}
+		case *ssa.Call:
+			if _, isApp := isBuiltinCall(e, "append"); !isApp || e.Call.Args[0] != ssa.Value(foundPhi) {
+				return false, "the result list is replaced by something other than append(list, …)"
+			}
+			el := sliceLitElems(e.Call.Args[1])
+			if len(el) != 1 || elemField(el[0]) != "i" {
+				return false, "something other than the entry's quadrant number is appended"
+			}
+			appended = true
+		default:
+			return false, "the result list is replaced by something other than an append"
+		}
+		newFlag, err := bi.eval(fr, flagPhi.Edges[pi], 0)
+		if err != nil {
+			return false, "the mutex flag after an entry is not understood: " + err.Error()
+		}
+		wantApp := !(as["M"] && as["X"]) && as["P"] && (as["C"] || as["L"])
+		wantFlag := as["X"] || (wantApp && as["M"])
+		if appended != wantApp || newFlag != wantFlag {
+			return false, fmt.Sprintf("for an entry with mutex=%v, mutex-taken=%v, has-points=%v, certain=%v, intersects=%v the code reports=%v / mutex-taken-after=%v where the rule gives %v / %v", as["M"], as["X"], as["P"], as["C"], as["L"], appended, newFlag, wantApp, wantFlag)
+		}
+	}
+	_ = lookup
+	// what leaves the loop is the list
+	done := header.Succs[1]
+	retOK := false
+	for _, in := range done.Instrs {
+		if ret, ok := in.(*ssa.Return); ok && len(ret.Results) == 1 && ret.Results[0] == ssa.Value(foundPhi) {
+			retOK = true
+		}
+	}
+	if !retOK {
+		return false, "the list built by the loop is not what is returned"
+	}
+	return true, ""
+}
+
+// onceStoredIgnoringLoads: like onceStored, for a struct local that is stored once and otherwise only read through
+// field addresses.
+func onceStoredIgnoringLoads(a *ssa.Alloc) ssa.Value { return onceStored(a) }
 
 func sliceElem(t types.Type) types.Type {
 	if t == nil {
